@@ -273,13 +273,25 @@ func freeRun(tw *traceWriter, run int, churn int) {
 			emit(map[string]interface{}{"k": "handler", "s": i, "p": c.procName(), "kind": evKind(e), "id": idIndex(e.TransactionID), "msg": []int{}, "t": c.now()})
 			emit(map[string]interface{}{"k": "handler_done", "s": i})
 		}
-		switch kind {
-		case "start":
-			err = cli.Start(m, h)
-		case "do":
-			err = cli.Do(m, h)
-		default:
-			err = cli.Indicate(m)
+		back := make(chan struct{})
+		kind := kind
+		go func() {
+			switch kind {
+			case "start":
+				err = cli.Start(m, h)
+			case "do":
+				err = cli.Do(m, h)
+			default:
+				err = cli.Indicate(m)
+			}
+			close(back)
+		}()
+		select {
+		case <-back:
+		case <-time.After(5 * time.Second):
+			freeStuck++
+			emit(map[string]interface{}{"k": "stuck", "report": "a call begun after Close was called does not return: " + kind})
+			continue
 		}
 		emit(map[string]interface{}{"k": "start_ret", "s": i, "err": fmtErr(err)})
 	}
